@@ -1,20 +1,38 @@
 #!/bin/bash
 # mutant_verify.sh <worktree> <n>: confirms a seeded change in its scratch worktree:
-# (1) original: demo passes; (2) with the diff: build ok, existing suite passes, demo fails.
+# (1) original: demonstration passes; (2) with the diff: build ok, existing suite passes, demonstration fails.
 WT=$1; N=$2
 export GOFLAGS=-mod=mod GOPROXY=off
+mkdir -p /tmp/mutverify
 cd $WT || exit 2
-git checkout -q -- . ; rm -f pfcpiface/zz_demo_*_test.go
+git checkout -q -- . ; find . -name 'zz_demo_*_test.go' -delete
+L=/tmp/mutverify/$(basename $WT)-m$N
+PY=$(ls _mutants/m${N}_demo*.py 2>/dev/null | head -1)
 DEMO=$(ls _mutants/m${N}_demo*_test.go 2>/dev/null | head -1)
-[ -z "$DEMO" ] && { echo "no demo"; exit 2; }
-cp $DEMO pfcpiface/zz_demo_${N}_test.go
-TESTS=$(grep -o '^func Test[A-Za-z0-9_]*' pfcpiface/zz_demo_${N}_test.go | sed 's/func //' | paste -sd'|')
-echo "demo tests: $TESTS"
-go test -vet=off -count=1 -run "^($TESTS)\$" ./pfcpiface/ > /tmp/mutverify/$(basename $WT)-m$N-orig.log 2>&1; ORIG=$?
-git apply _mutants/m$N.diff || { echo "diff does not apply"; git checkout -q -- .; rm -f pfcpiface/zz_demo_*_test.go; exit 2; }
-go build ./... > /tmp/mutverify/$(basename $WT)-m$N-build.log 2>&1; BUILD=$?
-go test -vet=off -count=1 -run "^($TESTS)\$" ./pfcpiface/ > /tmp/mutverify/$(basename $WT)-m$N-mut.log 2>&1; MUT=$?
-rm -f pfcpiface/zz_demo_*_test.go
-go test -vet=off -count=1 ./pfcpiface/... ./pkg/... ./cmd/... > /tmp/mutverify/$(basename $WT)-m$N-suite.log 2>&1; SUITE=$?
-git checkout -q -- .
-echo "RESULT $(basename $WT) m$N demo_on_original=$ORIG build=$BUILD demo_with_change=$MUT suite_with_change=$SUITE"
+if [ -n "$PY" ]; then
+  python3 $PY > $L-orig.log 2>&1; ORIG=$?
+  git apply _mutants/m$N.diff || { echo "diff does not apply"; git checkout -q -- .; exit 2; }
+  python3 -m py_compile conf/route_control.py > $L-build.log 2>&1; BUILD=$?
+  python3 $PY > $L-mut.log 2>&1; MUT=$?
+  SUITE=0
+  git checkout -q -- .
+  echo "demo script: $PY"
+else
+  [ -z "$DEMO" ] && { echo "no demo"; exit 2; }
+  PKGNAME=$(grep -m1 '^package ' $DEMO | awk '{print $2}')
+  case $PKGNAME in
+    pfcpiface) DIR=pfcpiface;; metrics) DIR=pfcpiface/metrics;; main) DIR=cmd/p4info_code_gen;; utils) DIR=pkg/utils;; p4constants) DIR=internal/p4constants;; logger) DIR=logger;;
+    *) DIR=$(grep -rl "^package $PKGNAME\$" --include=*.go . | grep -v _mutants | head -1 | xargs dirname);;
+  esac
+  cp $DEMO $DIR/zz_demo_${N}_test.go
+  TESTS=$(grep -o '^func Test[A-Za-z0-9_]*' $DIR/zz_demo_${N}_test.go | sed 's/func //' | paste -sd'|')
+  echo "demo tests ($DIR): $TESTS"
+  go test -vet=off -count=1 -run "^($TESTS)\$" ./$DIR/ > $L-orig.log 2>&1; ORIG=$?
+  git apply _mutants/m$N.diff || { echo "diff does not apply"; git checkout -q -- .; find . -name 'zz_demo_*_test.go' -delete; exit 2; }
+  go build ./... > $L-build.log 2>&1; BUILD=$?
+  go test -vet=off -count=1 -run "^($TESTS)\$" ./$DIR/ > $L-mut.log 2>&1; MUT=$?
+  find . -name 'zz_demo_*_test.go' -delete
+  go test -vet=off -count=1 ./pfcpiface/... ./pkg/... ./cmd/... ./internal/... ./logger/... > $L-suite.log 2>&1; SUITE=$?
+  git checkout -q -- .
+fi
+echo "RESULT $(basename $WT) m$N demo_on_original=$ORIG build=$BUILD demo_with_change=$MUT suite_with_change=$SUITE" | tee -a /tmp/mutverify/ALL.txt
